@@ -179,7 +179,7 @@ def arm_of(arms, i):
     acc = 0
     for name, n in arms:
         if i < acc + n:
-            return name
+            return name, i - acc
         acc += n
     raise IndexError(i)
 
@@ -187,8 +187,8 @@ def arm_of(arms, i):
 def make_case(machine, verif_seed, tier, arms, i):
     run_seed = derive_seed(verif_seed, machine.PID, i)
     rng = random.Random(run_seed)
-    arm = arm_of(arms, i)
-    case = machine.gen_case(rng, arm, tier)
+    arm, k = arm_of(arms, i)
+    case = machine.gen_case(rng, arm, tier, k)
     case["arm"] = arm
     return run_seed, case
 
